@@ -244,6 +244,21 @@ def prog():
     backend.prove()
     return (o1, o2)
 """, {"a": lambda c: SymInt(z3.Int("s_a")), "b": lambda c: SymInt(z3.Int("s_b"))}),
+        # the same wire several times in one linear combination, then cancelled in part
+        "repeated_terms": ("""
+def prog():
+    x = PrivVal(a)
+    y = PrivVal(b)
+    twice = x + x
+    back = twice - x
+    prod = back * y
+    mixed = (x + y) + (x + 1) + 1 - y
+    o1 = prod.val()
+    o2 = (back + 3).val()
+    o3 = (mixed * y).val()
+    backend.prove()
+    return (o1, o2, o3)
+""", {"a": lambda c: SymInt(z3.Int("s_a")), "b": lambda c: SymInt(z3.Int("s_b"))}),
     }
 
     def extra(self, c, r, wires, io, eqs, directives):
